@@ -65,6 +65,8 @@ func WorkerMain(fn ScenarioFunc) {
 	if d, err := strconv.ParseInt(os.Getenv("VERIF_DEADLINE_UNIX"), 10, 64); err == nil && d > 0 {
 		// the run's internal time budget: a shard that reaches it stops and reports Stopped (exhaustive:false)
 		deadline := time.Unix(d, 0)
+		// a worker stuck in the code under test must not outlive the run
+		time.AfterFunc(time.Until(deadline)+60*time.Second, func() { os.Exit(3) })
 		n := 0
 		o.Stop = func() bool {
 			n++
@@ -112,6 +114,12 @@ func RunShardedFree(scenario string, pb, db, n, maxFree int) (*Result, error) {
 			var out, errb bytes.Buffer
 			cmd.Stdout, cmd.Stderr = &out, &errb
 			if err := cmd.Run(); err != nil {
+				if ee, ok := err.(*exec.ExitError); ok && ee.ExitCode() == 3 {
+					// the worker ended itself at its hard deadline: it was stuck in the code under test
+					results[i] = &Result{Scenario: scenario, FailN: map[string]int{}, Outcomes: map[string]int64{},
+						Stats: verifrt.Stats{Stuck: 1, Stopped: true, StuckDump: "worker ended by its hard deadline (stuck in the code under test)"}}
+					return
+				}
 				errs[i] = fmt.Errorf("worker %d: %v\n%s", i, err, tail(errb.String()))
 				return
 			}
